@@ -23,7 +23,7 @@
    down from a row above (the refuted part of the property, theorem
    C09_slots_overlap_only_colspan_over_rowspan); 12 two cells share a grid slot
    in any other way. *)
-From Verif Require Export Base.GoSem Box.BoxGen Box.BoxWf Box.TableGridOverlap.
+From Verif Require Export Base.GoSem Box.BoxGen Box.BoxWf Box.TableGridOverlap Box.ElementGen.
 From Coq Require Import List ZArith NArith Bool.
 Import ListNotations.
 Open Scope Z_scope.
@@ -35,8 +35,11 @@ Open Scope Z_scope.
            64 out of flow, 128 running;   nums [] or [GridX; Colspan; Rowspan] *)
 Inductive node := Nd (t : N) (el : Z) (ps : N) (bits : N) (nums : list Z) (text : list N) (ch : list node).
 
+(* a ::before (1) / ::after (2) pseudo-element whose display is none *)
+Inductive hps := HP (el : Z) (ps : N).
+
 Inductive case :=
-| CTree (input : node) (hidden : list Z) (status : N) (output : node) (fnotes : list node)
+| CTree (input : node) (doc : elem) (status : N) (output : node) (fnotes : list node) (hidden_pseudo : list hps)
 | CMakeBox (d0 d1 d2 : N) (res : N)
 | CClasses (t : N) (bits : N)
 | CProperParents (p c : N) (r : bool).
@@ -141,13 +144,13 @@ Definition model_tree (input : node) : option (res box) :=
 
 (* for replays: what the model computes *)
 Inductive model_result :=
-| MTree (n : node) | MPanic (site : N) | MOutOfFuel | MMalformed | MOpt (t : option bty) | MBits (n : N) | MBool (b : bool).
+| MTree (n : node) (hidden footnote_roots : list Z) | MPanic (site : N) | MOutOfFuel | MMalformed | MOpt (t : option bty) | MBits (n : N) | MBool (b : bool).
 
 Definition model_out (c : case) : model_result :=
   match c with
-  | CTree input _ _ _ _ =>
+  | CTree input doc _ _ _ _ =>
       match model_tree input with
-      | Some (Ok b) => MTree (node_of_box b)
+      | Some (Ok b) => MTree (node_of_box b) (hidden_ids doc) (note_roots (e2b doc))
       | Some (Panic s) => MPanic s
       | Some OutOfFuel => MOutOfFuel
       | None => MMalformed
@@ -158,6 +161,21 @@ Definition model_out (c : case) : model_result :=
       match bty_of p, bty_of c with Some p, Some c => MBool (in_proper_parents p c) | _, _ => MMalformed end
   end.
 
+(* no box for a display:none pseudo-element *)
+Fixpoint no_pseudo_box_for (l : list hps) (b : box) : bool :=
+  negb (existsb (fun h => let 'HP e p := h in Z.eqb e (a_el (at_ b)) && N.eqb p (a_pseudo (at_ b))) l) &&
+  forallb (no_pseudo_box_for l) (ch b).
+
+(* l1 is a subsequence of l2 *)
+Fixpoint subseq (l1 l2 : list Z) : bool :=
+  match l2 with
+  | [] => match l1 with [] => true | _ => false end
+  | b :: r2 => match l1 with
+               | [] => true
+               | a :: r1 => if Z.eqb a b then subseq r1 r2 else subseq l1 r2
+               end
+  end.
+
 (* every pair of overlapping cells of every table is colspan-over-rowspan *)
 Fixpoint tables_overlaps_explained (b : box) : bool :=
   running b ||
@@ -166,10 +184,13 @@ Fixpoint tables_overlaps_explained (b : box) : bool :=
 
 Definition check (c : case) : N :=
   match c with
-  | CTree input hidden status output fnotes =>
+  | CTree input doc status output fnotes hp =>
+      let hidden := hidden_ids doc in
       match box_of_input input, model_tree input, all_some (map box_of_input fnotes) with
       | Some bin, Some r, Some fb =>
           if negb (no_box_for hidden bin && forallb (no_box_for hidden) fb) then 4%N
+          else if negb (no_pseudo_box_for hp bin && forallb (no_pseudo_box_for hp) fb) then 4%N
+          else if negb (subseq (map (fun b => a_el (at_ b)) fb) (note_roots (e2b doc))) then 13%N
           else
           match r, status with
           | Ok b, 0%N =>
@@ -177,7 +198,7 @@ Definition check (c : case) : N :=
               else match box_of_output output with
                    | Some bo =>
                        if negb (wf_root bo) then 3%N
-                       else if negb (no_box_for hidden bo) then 4%N
+                       else if negb (no_box_for hidden bo && no_pseudo_box_for hp bo) then 4%N
                        else if negb (tables_disjoint bo) then
                               (if tables_overlaps_explained bo then 11%N else 12%N)
                        else 0%N
